@@ -440,8 +440,16 @@ class Models:
         self.futs = {}
 
     def submit(self, key, module, cfg, workers=1, deadlock=True, coverage=False):
-        self.futs[key] = self.pool.submit(run_tlc, module, cfg=cfg, workers=workers, timeout=2400, deadlock=deadlock,
-                                          coverage=coverage, heap="4g")
+        def job():
+            # (a TLC process has been seen to sit idle for ever in a multi-worker liveness run: bounded time, one retry
+            # with a single worker)
+            limit = 600 if self.tier == "quick" else 2400
+            res = run_tlc(module, cfg=cfg, workers=workers, timeout=limit, deadlock=deadlock, coverage=coverage, heap="4g")
+            if res.error and "timed out" in res.error:
+                log("[c19] TLC job %s timed out after %ds: retrying with one worker" % ("-".join(key), limit))
+                res = run_tlc(module, cfg=cfg, workers=1, timeout=2400, deadlock=deadlock, coverage=coverage, heap="4g")
+            return res
+        self.futs[key] = self.pool.submit(job)
 
     def start(self):
         big = self.tier != "quick"
@@ -452,7 +460,7 @@ class Models:
             c = {"Workers": wk, "MaxFails": 1 if not big else 2, "Variant": variant}
             self.submit(("psbl", tag, "safety"), "conc/PSBL",
                         _cfg("psbl-%s-safe" % tag, "FairSpec", c, ["TypeOK", "MutualExclusion", "Exclusion"], ["Termination"]),
-                        workers=2, coverage=True)
+                        workers=2 if big else 1, coverage=True)
             for inv in ("UnlockByOwner", "CounterZeroWhenIdle", "QuiescentClean"):
                 cc = dict(c, Workers=W2, MaxFails=0 if inv == "UnlockByOwner" else 1)
                 self.submit(("psbl", tag, inv), "conc/PSBL", _cfg("psbl-%s-%s" % (tag, inv), "Spec", cc, [inv]))
